@@ -122,6 +122,10 @@ pub fn profile_for(id: &str, rng: &mut Rng) -> Profile {
             // every cell of a tree has the same size (open findings D31/D32 exclude mixed sizes and overflow)
             p.text_cols = true;
             p.pad_text = 450;
+            if let Ok(v) = std::env::var("AXSIM_PAD") {
+                p.pad_text = v.parse().unwrap_or(450); // experiment knob, never set by registered checks
+                p.max_inserts_per_table = 40;
+            }
             p.updates = false; // an UPDATE keeps the old version inside the cell: sizes stop being uniform (D31)
             p.max_tables = 2;
             p.w_ddl = 3;
@@ -144,6 +148,17 @@ pub fn profile_for(id: &str, rng: &mut Rng) -> Profile {
             p.max_tables = 1;
             p.w_ddl = 0;
             p.updates = false;
+            if rng.chance(40) {
+                // wide variant: several leaves of uniform ~0.5 KiB rows, so that VACUUM empties and merges pages
+                p.text_cols = true;
+                p.pad_text = 450;
+                p.max_inserts_per_table = 90;
+                p.guards.retain(|g| g != "more_than_18_inserts_per_table");
+                p.guards.push("more_than_100_inserts_per_table".into());
+                p.min_events = 30;
+                p.max_events = rng.range(40, 90) as u32;
+                p.w_auto = 60;
+            }
             p.w_vacuum = rng.range(4, 10) as u32;
             p.w_reopen = *rng.pick(&[0, 3]);
         }
@@ -165,6 +180,7 @@ pub fn profile_for(id: &str, rng: &mut Rng) -> Profile {
             p.w_flush = *rng.pick(&[0, 4, 10]);
             p.w_reopen = *rng.pick(&[0, 0, 4]);
             p.w_check = 0;
+            p.w_ddl = 10;
             p.max_sessions = 2;
             // rows with overflow chains are not generated here: open findings F7 / D6d
             p.read_burst = if rng.chance(12) { rng.range(240, 420) as u32 } else { 0 };
@@ -174,6 +190,8 @@ pub fn profile_for(id: &str, rng: &mut Rng) -> Profile {
                 p.guards.push("crash_after_recovery_truncated_log".into()); // F6 (fault-space guard)
             }
             p.guards.push("drop_table_before_crash".into()); // D6c
+            p.guards.push("drop_only_after_checkpoint".into()); // D6c, narrowed
+            p.guards.push("crash_inside_drop_table".into()); // D6c (fault-space guard)
             p.guards.push("delete_of_own_insert_in_open_txn".into()); // F5
             p.guards.push("crash_inside_checkpoint_page_writes".into()); // D22b (fault-space guard)
             if id == "C02" {
